@@ -170,6 +170,20 @@ Theorem C05_push_guards_depth : forall s len s' len',
   stk_depth s <= guard_limit /\ stk_depth s' = stk_depth s + 1.
 Proof. exact push_guards_depth. Qed.
 
+(* lazy lists: a fault raised while item i is computed surfaces as an error (and is caught by try) whenever
+   the consumer demands item i - whatever the stages between do with the item's value - under every
+   schedule; it is invisible otherwise *)
+Theorem C05_demanded_fault_is_error : forall D sc g d i f,
+  i < d -> (fault_raw code_sites D f = RErr \/ fault_raw code_sites D f = RPanic) ->
+  run code_sites D sc g (demand d i (PCall (PLeaf f))) = RErr /\
+  class code_sites D sc (demand d i (PCall (PLeaf f))) = CErr /\
+  class code_sites D sc (PTry (demand d i (PCall (PLeaf f)))) = CCatch.
+Proof. exact demanded_fault_is_error. Qed.
+
+Theorem C05_undemanded_fault_invisible : forall S D sc g d i q,
+  d <= i -> run S D sc g (demand d i q) = RVal /\ class S D sc (demand d i q) = CVal /\ class S D sc (PTry (demand d i q)) = CVal.
+Proof. exact undemanded_fault_invisible. Qed.
+
 (* non-vacuity: a host panic in a forced-parallel map below a try is caught; a program with all context kinds is safe *)
 Example C05_nonvacuous :
   class code_sites 1000 all_par (PTry (PStage 0 (PCall (PLeaf FHostPanic)))) = CCatch /\
@@ -202,6 +216,8 @@ Print Assumptions C05_recursion_through_method_is_an_error.
 Print Assumptions C05_mixed_recursion_is_an_error.
 Print Assumptions C05_mixed_recursion_fresh_method_refuted.
 Print Assumptions C05_below_inherits_depth.
+Print Assumptions C05_demanded_fault_is_error.
+Print Assumptions C05_undemanded_fault_invisible.
 Print Assumptions C05_push_guards_depth.
 Print Assumptions C05_recursion_through_guarded_method_partial.
 Print Assumptions C05_recursion_through_fresh_method_refuted.
